@@ -362,6 +362,34 @@ class World:
             return os.path.join(home, '.' + mailbox)
         return os.path.join(home, mailbox)
 
+    def uid_by_file(self, mailbox: str = 'INBOX',
+                    user: str | None = None) -> dict[str, int]:
+        """The folder's UID list read straight from the store: file name
+        up to the first ':' -> UID.  An observation for oracles (which UID
+        did a delivered file get), not an operation: read with the real
+        ``open`` and not logged."""
+        import builtins
+        folder = self._folder(mailbox, user)
+        out: dict[str, int] = {}
+        if folder is None:
+            return out
+        try:
+            with builtins.open(os.path.join(folder, 'dovecot-uidlist'),
+                               'r', encoding='latin-1') as fp:
+                lines = fp.read().splitlines()[1:]
+        except OSError:
+            return out
+        for line in lines:
+            before, sep, filename = line.partition(':')
+            if not sep:
+                continue
+            try:
+                out[filename.strip().split(':', 1)[0]] = \
+                    int(before.split(' ')[0])
+            except ValueError:
+                continue
+        return out
+
     def ext_lock(self, mailbox: str = 'INBOX', user: str | None = None,
                  hold: float = 0.1,
                  name: str = 'dovecot-uidlist.lock') -> bool:
